@@ -18,7 +18,7 @@ use crate::arrays::scalar::ScalarValue;
 use crate::expr::comparison_expr::ComparisonOperator;
 use crate::expr::conjunction_expr::ConjunctionOperator;
 
-//@fn optimizer/filter_pushdown/mod.rs FilterPushdown::{optimize, pushdown_aggregate, pushdown_filter, stop_pushdown}
+//@fn optimizer/filter_pushdown/mod.rs FilterPushdown::{optimize, pushdown_aggregate, pushdown_filter, stop_pushdown, pushdown_comparison_join, pushdown_cross_join, pushdown_arbitrary_join}
 
 type Row = BTreeMap<(usize, usize), Option<i64>>;
 
@@ -192,6 +192,326 @@ fn c02_filter_pushdown_aggregate__same_groups__nat() {
     }
     assert!(cases == 15 * 5 * 4);
     assert!(pushed >= 5, "the rule pushed the filter down in only {pushed} plans");
+}
+
+// ---- C02 U6b (bounded stand-in, native; NOT a proof): filter pushdown through joins is an equivalence ----
+//   plan     Filter(p) -> J -> [leaf(l), leaf(r)]      l(a, b), r(a, b)
+//   J        comparison join on l.a = r.a of type INNER / LEFT / RIGHT / FULL / SEMI / ANTI / MARK, comparison join on
+//            l.a < r.b (INNER, LEFT), cross join, arbitrary join on (l.a = r.a OR l.b = r.b) (INNER, LEFT)
+//   p        over the columns J outputs: l.a = 1 | r.b = 1 | l.a = r.b | l.b = 1 AND r.b = 1 | l.a = 1 OR r.b = 2 |
+//            r.a IS NULL | l.b IS NULL | l.a + r.a = 3 ;  for the MARK join: mark | NOT mark | mark AND l.a = 1 |
+//            l.a = 1 OR mark | mark IS NULL | NOT mark AND l.b = 1
+//   tables   five instances of (l, r) incl. empty inputs, duplicates and NULL keys
+// Specification (definition of the join types): INNER = the pairs satisfying the condition; LEFT / RIGHT / FULL add the
+// unmatched rows of the preserved side(s) padded with NULLs; SEMI / ANTI = the left rows with / without a partner; MARK
+// = every left row plus a boolean column (TRUE with a partner, else NULL if a comparison was NULL, else FALSE).  Filter
+// keeps the rows whose predicate is TRUE.  Both plans are evaluated by the reference interpreter and must return the
+// same multiset of rows over the columns of l and r.
+type Tab = Vec<(Option<i64>, Option<i64>)>;
+
+fn evalj(e: &Expression, row: &Row) -> V {
+    match e {
+        Expression::Column(c) => match row.get(&(c.reference.table_scope.table_idx, c.reference.column)) {
+            Some(Some(v)) => {
+                if c.datatype == DataType::boolean() {
+                    V::Bool(*v != 0)
+                } else {
+                    V::Int(*v)
+                }
+            }
+            Some(None) => V::Null,
+            None => panic!("plan references a column that is not in scope: {e}"),
+        },
+        Expression::Negate(n) => match evalj(&n.expr, row) {
+            V::Bool(b) => V::Bool(!b),
+            V::Null => V::Null,
+            other => panic!("NOT over {other:?}"),
+        },
+        Expression::Is(i) => {
+            let v = evalj(&i.input, row);
+            V::Bool(match i.op {
+                crate::expr::is_expr::IsOperator::IsNull => v == V::Null,
+                crate::expr::is_expr::IsOperator::IsNotNull => v != V::Null,
+                crate::expr::is_expr::IsOperator::IsTrue => v == V::Bool(true),
+                crate::expr::is_expr::IsOperator::IsFalse => v == V::Bool(false),
+            })
+        }
+        Expression::Arith(a) => match (evalj(&a.left, row), evalj(&a.right, row)) {
+            (V::Int(x), V::Int(y)) => match a.op {
+                crate::expr::arith_expr::ArithOperator::Add => V::Int(x + y),
+                other => panic!("arithmetic operator outside the interpreted fragment: {other:?}"),
+            },
+            _ => V::Null,
+        },
+        Expression::Cast(c) => evalj(&c.expr, row),
+        Expression::Comparison(c) => match (evalj(&c.left, row), evalj(&c.right, row)) {
+            (V::Int(a), V::Int(b)) => V::Bool(match c.op {
+                ComparisonOperator::Eq => a == b,
+                ComparisonOperator::NotEq => a != b,
+                ComparisonOperator::Lt => a < b,
+                ComparisonOperator::LtEq => a <= b,
+                ComparisonOperator::Gt => a > b,
+                ComparisonOperator::GtEq => a >= b,
+                _ => panic!("unexpected operator"),
+            }),
+            (V::Bool(a), V::Bool(b)) if c.op == ComparisonOperator::Eq => V::Bool(a == b),
+            _ => V::Null,
+        },
+        Expression::Conjunction(c) => {
+            let dominant = c.op == ConjunctionOperator::Or;
+            let (mut hit, mut any_null) = (false, false);
+            for child in &c.expressions {
+                match evalj(child, row) {
+                    V::Bool(b) if b == dominant => hit = true,
+                    V::Bool(_) => (),
+                    _ => any_null = true,
+                }
+            }
+            if hit {
+                V::Bool(dominant)
+            } else if any_null {
+                V::Null
+            } else {
+                V::Bool(!dominant)
+            }
+        }
+        Expression::Literal(_) => eval(e, row),
+        other => panic!("expression outside the interpreted fragment: {other}"),
+    }
+}
+
+/// the columns a plan outputs: (table, column)
+fn out_cols(plan: &LogicalOperator) -> Vec<(usize, usize)> {
+    match plan {
+        LogicalOperator::NoRows(n) => n.node.table_refs.iter().flat_map(|t| [(t.table_idx, 0), (t.table_idx, 1)]).collect(),
+        LogicalOperator::Filter(f) => out_cols(&f.children[0]),
+        LogicalOperator::CrossJoin(j) => [out_cols(&j.children[0]), out_cols(&j.children[1])].concat(),
+        LogicalOperator::ComparisonJoin(j) => join_cols(j.node.join_type, &j.children),
+        LogicalOperator::ArbitraryJoin(j) => join_cols(j.node.join_type, &j.children),
+        other => panic!("plan operator outside the interpreted fragment: {other:?}"),
+    }
+}
+
+fn join_cols(jt: JoinType, children: &[LogicalOperator]) -> Vec<(usize, usize)> {
+    let l = out_cols(&children[0]);
+    match jt {
+        JoinType::LeftSemi | JoinType::LeftAnti => l,
+        JoinType::LeftMark { table_ref } => [l, vec![(table_ref.table_idx, 0)]].concat(),
+        _ => [l, out_cols(&children[1])].concat(),
+    }
+}
+
+fn join_rows(jt: JoinType, children: &[LogicalOperator], tabs: &BTreeMap<usize, Tab>, cond: &dyn Fn(&Row) -> V) -> Vec<Row> {
+    let left = runj(&children[0], tabs);
+    let right = runj(&children[1], tabs);
+    let lcols = out_cols(&children[0]);
+    let rcols = out_cols(&children[1]);
+    let merged = |l: &Row, r: &Row| -> Row { l.iter().chain(r.iter()).map(|(k, v)| (*k, *v)).collect() };
+    let pad = |row: &Row, cols: &[(usize, usize)]| -> Row { row.iter().map(|(k, v)| (*k, *v)).chain(cols.iter().map(|c| (*c, None))).collect() };
+    let mut out = Vec::new();
+    let mut right_matched = vec![false; right.len()];
+    for l in &left {
+        let mut matched = false;
+        let mut saw_null = false;
+        for (ri, r) in right.iter().enumerate() {
+            let m = merged(l, r);
+            match cond(&m) {
+                V::Bool(true) => {
+                    matched = true;
+                    right_matched[ri] = true;
+                    if matches!(jt, JoinType::Inner | JoinType::Left | JoinType::Right | JoinType::Full) {
+                        out.push(m);
+                    }
+                }
+                V::Null => saw_null = true,
+                _ => (),
+            }
+        }
+        match jt {
+            JoinType::Left | JoinType::Full if !matched => out.push(pad(l, &rcols)),
+            JoinType::LeftSemi if matched => out.push(l.clone()),
+            JoinType::LeftAnti if !matched => out.push(l.clone()),
+            JoinType::LeftMark { table_ref } => {
+                let mark = if matched { Some(1) } else if saw_null { None } else { Some(0) };
+                let mut row = l.clone();
+                row.insert((table_ref.table_idx, 0), mark);
+                out.push(row);
+            }
+            _ => (),
+        }
+    }
+    if matches!(jt, JoinType::Right | JoinType::Full) {
+        for (ri, r) in right.iter().enumerate() {
+            if !right_matched[ri] {
+                out.push(pad(r, &lcols));
+            }
+        }
+    }
+    out
+}
+
+fn runj(plan: &LogicalOperator, tabs: &BTreeMap<usize, Tab>) -> Vec<Row> {
+    match plan {
+        LogicalOperator::NoRows(n) => {
+            let t = n.node.table_refs[0].table_idx;
+            tabs[&t].iter().map(|(a, b)| Row::from([((t, 0), *a), ((t, 1), *b)])).collect()
+        }
+        LogicalOperator::Filter(f) => runj(&f.children[0], tabs).into_iter().filter(|r| evalj(&f.node.filter, r) == V::Bool(true)).collect(),
+        LogicalOperator::CrossJoin(j) => join_rows(JoinType::Inner, &j.children, tabs, &|_| V::Bool(true)),
+        LogicalOperator::ComparisonJoin(j) => join_rows(j.node.join_type, &j.children, tabs, &|row| {
+            let mut any_null = false;
+            for c in &j.node.conditions {
+                let e = Expression::Comparison(crate::expr::comparison_expr::ComparisonExpr { left: c.left.clone(), right: c.right.clone(), op: c.op });
+                match evalj(&e, row) {
+                    V::Bool(true) => (),
+                    V::Bool(false) => return V::Bool(false),
+                    _ => any_null = true,
+                }
+            }
+            if any_null { V::Null } else { V::Bool(true) }
+        }),
+        LogicalOperator::ArbitraryJoin(j) => join_rows(j.node.join_type, &j.children, tabs, &|row| evalj(&j.node.condition, row)),
+        other => panic!("plan operator outside the interpreted fragment: {other:?}"),
+    }
+}
+
+#[test]
+fn c02c06_filter_pushdown_joins__same_rows__nat() {
+    use crate::logical::logical_join::{JoinCondition, LogicalArbitraryJoin};
+    let s = Some;
+    let instances: [(Tab, Tab); 5] = [
+        (vec![], vec![(s(1), s(1))]),
+        (vec![(s(1), s(1)), (s(2), s(1))], vec![]),
+        (vec![(s(1), s(1)), (s(1), s(2)), (s(2), s(1)), (s(3), None)], vec![(s(1), s(1)), (s(2), s(2)), (s(2), s(1)), (s(4), s(1))]),
+        (vec![(s(1), s(1)), (None, s(1)), (s(2), s(2))], vec![(None, s(1)), (s(2), None), (s(1), s(2))]),
+        (vec![(s(1), s(1)), (s(1), s(1)), (s(5), s(2))], vec![(s(1), s(3)), (s(1), s(2)), (None, None)]),
+    ];
+    let mut cases = 0usize;
+    let mut changed = 0usize;
+    for join_kind in 0..12usize {
+        let is_mark = join_kind == 6;
+        let npreds = if is_mark { 6 } else { 8 };
+        for pred in 0..npreds {
+            let mut bind_context = BindContext::new_for_root();
+            let tl = bind_context.new_ephemeral_table_with_columns([DataType::int32(), DataType::int32()], ["a", "b"]).unwrap();
+            let tr = bind_context.new_ephemeral_table_with_columns([DataType::int32(), DataType::int32()], ["a", "b"]).unwrap();
+            let tm = bind_context.new_ephemeral_table_with_columns([DataType::boolean()], ["mark"]).unwrap();
+            let la = || expr::column((tl, 0), DataType::int32());
+            let lb = || expr::column((tl, 1), DataType::int32());
+            let ra = || expr::column((tr, 0), DataType::int32());
+            let rb = || expr::column((tr, 1), DataType::int32());
+            let mark = || expr::column((tm, 0), DataType::boolean());
+            let not = |e: Expression| -> Expression { expr::negate(crate::expr::negate_expr::NegateOperator::Not, e).unwrap().into() };
+            let is_null = |e: Expression| -> Expression {
+                Expression::Is(crate::expr::is_expr::IsExpr { op: crate::expr::is_expr::IsOperator::IsNull, input: Box::new(e) })
+            };
+            let eq1 = |e: Expression, v: i32| -> Expression { expr::eq(e, expr::lit(v)).unwrap().into() };
+            // joins that only output the left side: predicates over l only
+            let left_only = matches!(join_kind, 4 | 5);
+            let p: Expression = if is_mark {
+                match pred {
+                    0 => mark(),
+                    1 => not(mark()),
+                    2 => expr::and([mark(), eq1(la(), 1)]).unwrap().into(),
+                    3 => expr::or([eq1(la(), 1), mark()]).unwrap().into(),
+                    4 => is_null(mark()),
+                    _ => expr::and([not(mark()), eq1(lb(), 1)]).unwrap().into(),
+                }
+            } else if left_only {
+                match pred {
+                    0 => eq1(la(), 1),
+                    1 => eq1(lb(), 1),
+                    2 => expr::eq(la(), lb()).unwrap().into(),
+                    3 => expr::and([eq1(lb(), 1), eq1(la(), 1)]).unwrap().into(),
+                    4 => expr::or([eq1(la(), 1), eq1(lb(), 2)]).unwrap().into(),
+                    5 => is_null(la()),
+                    6 => is_null(lb()),
+                    _ => expr::eq(expr::add(la(), lb()).unwrap(), expr::lit(3)).unwrap().into(),
+                }
+            } else {
+                match pred {
+                    0 => eq1(la(), 1),
+                    1 => eq1(rb(), 1),
+                    2 => expr::eq(la(), rb()).unwrap().into(),
+                    3 => expr::and([eq1(lb(), 1), eq1(rb(), 1)]).unwrap().into(),
+                    4 => expr::or([eq1(la(), 1), eq1(rb(), 2)]).unwrap().into(),
+                    5 => is_null(ra()),
+                    6 => is_null(lb()),
+                    _ => expr::eq(expr::add(la(), ra()).unwrap(), expr::lit(3)).unwrap().into(),
+                }
+            };
+            let node = |children: Vec<LogicalOperator>| -> LogicalOperator {
+                let cmp = |jt: JoinType, left: Expression, right: Expression, op: ComparisonOperator, children: Vec<LogicalOperator>| {
+                    LogicalOperator::ComparisonJoin(Node {
+                        node: LogicalComparisonJoin { join_type: jt, conditions: vec![JoinCondition { left: Box::new(left), right: Box::new(right), op }] },
+                        location: LocationRequirement::Any,
+                        children,
+                        estimated_cardinality: StatisticsValue::Unknown,
+                    })
+                };
+                let arb = |jt: JoinType, children: Vec<LogicalOperator>| {
+                    LogicalOperator::ArbitraryJoin(Node {
+                        node: LogicalArbitraryJoin {
+                            join_type: jt,
+                            condition: expr::or([expr::eq(la(), ra()).unwrap().into(), expr::eq(lb(), rb()).unwrap().into()]).unwrap().into(),
+                        },
+                        location: LocationRequirement::Any,
+                        children,
+                        estimated_cardinality: StatisticsValue::Unknown,
+                    })
+                };
+                match join_kind {
+                    0 => cmp(JoinType::Inner, la(), ra(), ComparisonOperator::Eq, children),
+                    1 => cmp(JoinType::Left, la(), ra(), ComparisonOperator::Eq, children),
+                    2 => cmp(JoinType::Right, la(), ra(), ComparisonOperator::Eq, children),
+                    3 => cmp(JoinType::Full, la(), ra(), ComparisonOperator::Eq, children),
+                    4 => cmp(JoinType::LeftSemi, la(), ra(), ComparisonOperator::Eq, children),
+                    5 => cmp(JoinType::LeftAnti, la(), ra(), ComparisonOperator::Eq, children),
+                    6 => cmp(JoinType::LeftMark { table_ref: tm }, la(), ra(), ComparisonOperator::Eq, children),
+                    7 => cmp(JoinType::Inner, la(), rb(), ComparisonOperator::Lt, children),
+                    8 => cmp(JoinType::Left, la(), rb(), ComparisonOperator::Lt, children),
+                    9 => LogicalOperator::CrossJoin(Node { node: LogicalCrossJoin, location: LocationRequirement::Any, children, estimated_cardinality: StatisticsValue::Unknown }),
+                    10 => arb(JoinType::Inner, children),
+                    _ => arb(JoinType::Left, children),
+                }
+            };
+            let build = || {
+                LogicalOperator::Filter(Node {
+                    node: LogicalFilter { filter: p.clone() },
+                    location: LocationRequirement::Any,
+                    children: vec![node(vec![leaf(tl), leaf(tr)])],
+                    estimated_cardinality: StatisticsValue::Unknown,
+                })
+            };
+            let original = build();
+            let optimized = match FilterPushdown::default().optimize(&mut bind_context, build()) {
+                Ok(p) => p,
+                Err(e) => panic!("filter pushdown failed on join kind {join_kind}, predicate `{p}`: {}", e.to_string().lines().next().unwrap_or("")),
+            };
+            if format!("{optimized:?}") != format!("{original:?}") {
+                changed += 1;
+            }
+            for (l, r) in &instances {
+                let tabs: BTreeMap<usize, Tab> = BTreeMap::from([(tl.table_idx, l.clone()), (tr.table_idx, r.clone())]);
+                let keep = |rows: Vec<Row>| -> Vec<Row> {
+                    let mut v: Vec<Row> = rows.into_iter().map(|r| r.into_iter().filter(|((t, _), _)| *t == tl.table_idx || *t == tr.table_idx).collect()).collect();
+                    v.sort();
+                    v
+                };
+                let want = keep(runj(&original, &tabs));
+                let got = keep(runj(&optimized, &tabs));
+                assert!(
+                    want == got,
+                    "filter pushdown through a join changes the result: predicate `{p}` above join kind {join_kind} ({}) on l = {l:?}, r = {r:?} returns {} rows {want:?}; the optimized plan returns {} rows {got:?}",
+                    match &original { LogicalOperator::Filter(f) => match &f.children[0] { LogicalOperator::ComparisonJoin(j) => format!("{:?} comparison join", j.node.join_type), LogicalOperator::ArbitraryJoin(j) => format!("{:?} arbitrary join", j.node.join_type), _ => "cross join".to_string() }, _ => String::new() },
+                    want.len(), got.len()
+                );
+                cases += 1;
+            }
+        }
+    }
+    assert!(cases == (11 * 8 + 6) * 5);
+    assert!(changed >= 30, "the rule rewrote only {changed} plans");
 }
 
 include!("/verif/build/kani-gen/filter_pushdown.playback.rs");
